@@ -944,3 +944,42 @@ def mutated_self_fields(thir, adt_substr):
             if f:
                 out.add(f)
     return out
+
+
+
+class Forward:
+    """Evaluate ONE rule of another property's module under this property's check and name (the rule is a necessary condition of
+    both properties; each registered check must be able to report it on its own)."""
+
+    def __init__(self, ck_, src, dst):
+        self.ck, self.src, self.dst = ck_, src, dst
+        self.notes, self.analysed, self.extract_info = ck_.notes, ck_.analysed, ck_.extract_info
+        self.tier = getattr(ck_, "tier", "quick")
+
+    def _m(self, r):
+        return r == self.src
+
+    def rule(self, r, d):
+        if self._m(r):
+            self.ck.rule(self.dst, d)
+
+    def ok(self, r, inst, detail=""):
+        if self._m(r):
+            self.ck.ok(self.dst, inst, detail)
+
+    def violation(self, r, key, where="", detail=""):
+        if self._m(r):
+            self.ck.violation(self.dst, key, where, detail)
+
+    def floor(self, r, what, count, floor):
+        if self._m(r):
+            self.ck.floor(self.dst, what, count, floor)
+
+    def count(self, *a, **k):
+        pass
+
+    def require(self, *a, **k):
+        return True
+
+    def __getattr__(self, name):
+        return getattr(self.ck, name)
